@@ -138,7 +138,9 @@ def normalize_set(s):
     # In most other cases, set ordering is consistent within the same interpreter.
     # frozenset as well: pickling it (normalize_object) depends on its iteration
     # order, which differs between equal frozensets, e.g. a deep copy.
-    return type(s).__name__, _normalize_seq_func(sorted(s, key=str))
+    # Sort the normalized members, not the members: str() of a member that is
+    # itself a (frozen)set follows that member's own iteration order.
+    return type(s).__name__, tuple(sorted(_normalize_seq_func(s), key=str))
 
 
 def _normalize_seq_func(seq: Iterable[object]) -> tuple[object, ...]:
